@@ -13,7 +13,7 @@ CHECKS = {
  "C01": ("bounded-exhaustive enumeration + property-based generation + coverage-guided fuzzing against a no-panic / heap-bound / CPU-watchdog oracle",
          "Every truncation, single-byte perturbation and RDLENGTH value of reference encodings of all 40 types, messages holding thousands of records of one type, all short buffers, all bodies up to 6 (7) bytes over a 12-symbol alphabet, generated pointer graphs up to 64 KiB and mutated reference encodings are parsed under panic capture, a per-thread heap meter and a thread-CPU watchdog; thorough adds libFuzzer campaigns with the same oracle in-target. Exploration: absence is not established beyond the enumerated bounds.",
          "Heap bound 64 KiB + 1024*len calibrated on the densest legitimate input; time asserted only through the 5 s / 20 s CPU watchdog; inputs capped at 65535 bytes.", "4/C01"),
- "C02": ("property-based round trip: abstract packet -> public constructors -> build_bytes_vec -> parse -> field-by-field observation",
+ "C02": ("property-based round trip: abstract packet -> public constructors -> build_bytes_vec -> parse -> field-by-field observation; packets used a second time and changed through the public mutators after the first serialisation",
          "Generated packets over every typed variant, unknown and empty RDATA, binary labels, boundary integers, EDNS, named codes, plus suffix-sharing packets of up to 65535 bytes and packets assembled through the text / map / setter based constructors; names are built by one of three public routes per packet (from labels, through Name::without, from text); the parsed packet is observed through public accessors and byte hooks and compared with the generating model, not with the library's own PartialEq.",
          "Trusts the bridge (checks keyed by field name) and the documented construction domain (exclusions listed in the evidence assumptions).", "4/C02"),
  "C03": ("property-based differential: compressed vs plain serialisation vs model, suffix-sharing names, sizes straddling 16 KiB; writer entry point also at a non-zero origin, through short-write writers and into a reused buffer holding stale content",
@@ -22,13 +22,13 @@ CHECKS = {
  "C04": ("property-based + capacity enumeration: independent envelope walker and byte equality across writer configurations; extended response code without an OPT set framed too",
          "Generated packets (names built from labels, through Name::without or from text), packets built through the alternative constructors and packets obtained from the parser x {plain, compressed} x {Vec, growable cursor at offset 0/2/k over empty and pre-filled storage, writers accepting 1/3/7 bytes per call, fixed slices and cursors of every capacity 0..len+2}; framing checked by an independent RFC 1035 walker plus the schema decoder (a verdict that hinges on where a compression pointer leads is taken again with names read in place only).",
          "Capacity sweep is complete only for 15% of packets up to 600 bytes, 11 boundary capacities otherwise; cursor position after the write is not checked.", "4/C04"),
- "C05": ("property-based differential against an independent RFC 1035 envelope walker + schema decoder confined to each RDLENGTH slice",
+ "C05": ("property-based differential against an independent RFC 1035 envelope walker + schema decoder confined to each RDLENGTH slice; messages parsed in a reused receive buffer after a refused datagram",
          "Reference encodings with RDLENGTH larger (random or record-shaped surplus) or smaller than the typed content, bumped section counts, sections really holding 0..4000 entries, stray and twin OPT records, and mutated encodings; walker failure or content outside its frame => library must reject; library Ok => entries equal the framed entries.",
          "The library may reject for reasons of its own; no claim then. Reference schema is my RFC transcription (anchored on dnspython samples in C10).", "4/C05"),
  "C06": ("bounded-exhaustive enumeration + property-based generation against an independent RFC 1035 4.1.4 name decoder",
          "Every buffer up to 6 (7) bytes over a 12-symbol alphabet at every start offset, names around 255 bytes, chains of up to 4000 backward hops, every reserved-type octet, random label/pointer soups, names inside messages of every record type (foreign compression, pointers up to offset 16383), and records whose RDATA ends right before their last name are decoded by the library (hook Name::verif_parse) and by a reference decoder with a visited set; labels, resume offset and error classes are compared.",
          "Forward pointers and chains longer than 32 hops may be refused without claim; exhaustive only within the stated alphabet and length.", "4/C06"),
- "C07": ("property-based with an independent schema-aware pointer walker over compressed output, writers at non-zero origin",
+ "C07": ("property-based with an independent schema-aware pointer walker over compressed output, writers at non-zero origin; second, grown-clone and two-stage compressed outputs",
          "Every name occurrence (question, owner, RDATA names by type) of generated compressed messages is located independently; pointers must be backwards, <= 16383, onto a label start of an earlier-written name and relative to the message start; forbidden positions uncompressed; repeated RFC 1035 names compressed.",
          "RP/AFSDB/RT/NSAP-PTR names are accepted compressed or not (statement silent).", "4/C07"),
  "C08": ("exhaustive enumeration of all header words / flag-set pairs against an RFC 1035 bit-layout oracle; build side through every writer entry point, also at non-zero stream positions",
@@ -40,7 +40,7 @@ CHECKS = {
  "C10": ("property-based differential against an independent declarative RFC schema (encoder + decoder), byte for byte, plus structural-rule and mutation cases, anchored on dnspython samples",
          "For each of the 40 types: reference encoding -> parse -> values; values -> build -> bytes equal the reference encoding; rule-breaking encodings (LOC version, SVCB key order, NSEC window order, inner length overruns) and single-byte mutations judged by the reference decoder; externally produced samples decode identically.",
          "The schema is my transcription of the RFCs (DESIGN.md appendix A), cross-checked against 30 dnspython-made files at every run.", "4/C10"),
- "C11": ("property-based + exhaustive header words: parse -> build (vector-returning and writer-based entry points) -> parse metamorphic relation on parser-accepted inputs, incl. small messages whose plain form exceeds 64 KiB",
+ "C11": ("property-based + exhaustive header words: parse -> build (vector-returning and writer-based entry points) -> parse metamorphic relation on parser-accepted inputs, incl. small messages whose plain form exceeds 64 KiB; each form twice, also after failed writes on the same thread",
          "Reference encodings with foreign compression, stray OPT records, any opcode / response code, all 65536 header words, and accepted mutated encodings; after re-serialisation (plain and compressed) every observable field must be equal.",
          "Observation through public accessors and byte hooks; opcode()/rcode() compared as the caller sees them.", "4/C11"),
  "C12": ("property-based: every public observer (incl. Display / Debug with width, precision, alignment and alternate flags) applied to every part of parser-accepted packets under panic capture, with UTF-8 metamorphic checks",
@@ -52,7 +52,7 @@ CHECKS = {
  "C14": ("property-based sequences through a step-for-step copy of the three receive loops under panic capture and a real RwLock (supervised child process: a stack overflow or abort is decided by a crash journal), an alignment sweep of replies beyond 16 KiB, plus sampled fault injection over real loopback multicast sockets (sync and async services and resolvers)",
          "Datagram sequences (empty, short, random, mutated, hostile names, large) against arbitrary stores; no panic, lock not poisoned, replies parse, store still answers; a real responder and discovery service (sync and async) receive generated datagrams and responses claiming the discoverers' own instance names between two probe queries, and get_known_services must return within 30 s afterwards.",
          "The pure pipeline copies the loop bodies; only the socket section sees edits to the loops. Interleavings on the shared store are not explored. Socket section makes no claim without usable multicast.", "4/C14"),
- "C15": ("model-based testing: advertise (full, partial, reply-style) -> compressed wire -> ingest (sync / async) -> virtual time -> report, two-sided comparison with what the receptions imply; escape/unescape round trip",
+ "C15": ("model-based testing: advertise (full, partial, reply-style) -> compressed wire -> ingest (sync / async) -> virtual time -> report, two-sided comparison with what the receptions imply; escape/unescape round trip; instance descriptions edited through their public members before being advertised",
          "Peers, repeated announcements and noise (own instance, service-name PTR, colliding foreign services, deeper names) (in reply style produced by the library's own build_reply answering the discoverer's two-question query) are ingested with the receive loop's own function and read back as get_known_services does; reported set must equal the advertised set exactly.",
          "Driven through the simple_mdns::verif hook with the store initialised as ServiceDiscovery::new does; the async variant shares the store and from_records only.", "4/C15"),
  "C16": ("property-based: clone / into_owned / built-vs-parsed triples compared by ==, observation, hash and bytes; twins differing in one field, in padding, in letter case, in class or in the way their type is named (== implies equal hashes); set-valued values rebuilt in permuted orders and as near twins (equal => same hash and one set slot, unequal => two)",
@@ -64,7 +64,7 @@ CHECKS = {
  "C18": ("exhaustive enumeration of all 16-bit codes and the full record x question x class x cache-flush matrices against an IANA table, plus property-based checks that records parsed from mutated encodings report the TYPE / CLASS of their wire entry",
          "Complete enumeration of all 65536 codes through the four conversions and of the (record type, question type) and (class, qclass) matrices, for records both constructed and parsed.",
          "IANA registry values typed into checks/c18.rs; MAILA/AXFR/IXFR matching not covered (statement silent).", "4/C18"),
- "C19": ("property-based round trips and a reference splitter; exhaustive length enumeration for construction limits",
+ "C19": ("property-based round trips and a reference splitter; exhaustive length enumeration for construction limits; conversions repeated after a refused conversion on the same thread",
          "Unicode strings around multiples of 254/255 bytes with multi-byte and look-alike characters, attribute maps with absent/empty values and duplicates, attribute strings with look-alike separators, all lengths 0..300 for construction.",
          "Empty keys not generated (RFC 6763 6.4).", "4/C19"),
  "C20": ("model-based testing with a controllable clock (additive ageing hook) and measured-time interval soundness, plus real-sleep histories",
